@@ -22,7 +22,7 @@ func (l localOptimizer) run(method localMethod, gradThresh float64, operation ch
 	task := tasks[0]
 	task = l.initialLocation(operation, result, task, method)
 	if task.Op == PostIteration {
-		l.finish(operation, result)
+		l.finishInitial(operation, result)
 		return NotTerminated, nil
 	}
 	status, err := l.checkStartingLocation(task, gradThresh)
@@ -135,6 +135,20 @@ func (localOptimizer) finish(operation chan<- Task, result <-chan Task) {
 
 // finishMethodDone sends a MethodDone signal on operation, reads the result,
 // and completes the channel operations to finish an optimization.
+// finishInitial is called when the optimization was stopped while the starting
+// location was being evaluated. If that evaluation completed, the starting
+// location is reported as the result of the optimization.
+func (localOptimizer) finishInitial(operation chan<- Task, result <-chan Task) {
+	// Guarantee that result is closed before operation is closed.
+	for task := range result {
+		if task.Op&FuncEvaluation == 0 || math.IsInf(task.F, 1) || math.IsNaN(task.F) {
+			continue
+		}
+		task.Op = MajorIteration
+		operation <- task
+	}
+}
+
 func (l localOptimizer) finishMethodDone(operation chan<- Task, result <-chan Task, task Task) {
 	task.Op = MethodDone
 	operation <- task
